@@ -37,11 +37,11 @@ ASSUMPTIONS = [
 
 
 def frames(n):
-    f1 = sf.Frame.from_records([[1, 2], [3, 4]], index=('a', 'b'), columns=('p', 'q'), name='f1')
+    f1 = sf.Frame.from_records([[1, 2], [3, 4]], index=('a', 'b'), columns=('p', 'q'), name='t2')
     f2 = sf.Frame.from_records([[1.5, 2.5, 3.5, 4.5], [5.5, np.nan, 7.5, 8.5], [0.5, 1.0, 2.0, 3.0]],
-                               index=sf.IndexHierarchy.from_labels([('x', 1), ('x', 2), ('y', 1)], name=('k1', 'k2')), columns=('p', 'q', 'r', 's'), name='f2')
-    f3 = sf.Frame.from_records([['u', True, 3]], index=('z',), columns=('t', 'b', 'i'), name='f3')
-    f4 = sf.Frame.from_records([[10], [20], [30]], index=('a', 'b', 'c'), columns=('only',), name='f4')
+                               index=sf.IndexHierarchy.from_labels([('x', 1), ('x', 2), ('y', 1)], name=('k1', 'k2')), columns=('p', 'q', 'r', 's'), name='t10')
+    f3 = sf.Frame.from_records([['u', True, 3]], index=('z',), columns=('t', 'b', 'i'), name='t1')
+    f4 = sf.Frame.from_records([[10], [20], [30]], index=('a', 'b', 'c'), columns=('only',), name='t0')
     return [f1, f2, f3, f4][:n]
 
 
